@@ -22,6 +22,8 @@ OPS = ["sbx", "pm", "uniform", "nonuniform"]
 def cases(ctx):
     for i in range(ctx.pick(4000, 640000)):
         yield "operator", {"seed": ctx.subseed("o", i), "op": OPS[i % 4]}
+    for i in range(ctx.pick(1500, 200000)):
+        yield "generated_parents", {"seed": ctx.subseed("gp", i), "op": OPS[i % 4]}
     for i in range(ctx.pick(600, 100000)):
         yield "generator", {"seed": ctx.subseed("g", i), "gen": ["random", "lhs", "halton", "uniform", "fullfact", "pb", "bb", "gen_vector"][i % 8]}
     for i in range(ctx.pick(120, 24000)):
@@ -159,6 +161,66 @@ def run_case(ctx, name, params):
         ctx.nontrivial((op, tuple(map(tuple, bxs)), tuple(p1), tuple(p2), params["seed"]))
         ctx.count("cases")
         ctx.sample({"operator": op, "bounds": bxs[:2], "p1": p1[:2], "p2": p2[:2], "rng_edge_draws": hr.edges}, op, 1)
+    elif name == "generated_parents":
+        # the parents the library itself produces: designs drawn by gen_vector for parameters with a declared precision lie on a
+        # grid anchored at zero, i.e. inside the box only up to half a grid step -- or up to one ulp when the bound is a grid
+        # point.  Variation of such parents must not fail, and stays inside the box up to the same tolerance (a coordinate that
+        # is copied through unchanged keeps its grid value).
+        from artap.utils import VectorAndNumbers
+        op = params["op"]
+        n = r.randint(1, 4)
+        bxs = gen.boxes(r, n, r.choice(["offset", "offset", "neg", "mixed", "unit", "asym", "huge"]))
+        precs = []
+        for lb, ub in bxs:
+            c = r.random()
+            precs.append((ub - lb) / r.choice([2, 3, 3, 4, 7, 10]) if c < 0.7 else r.choice([0.25, 0.5, 0.1, 0.3]) * (ub - lb))
+        P = [{"name": "x%d" % i, "bounds": list(b), "precision": pr} for i, (b, pr) in enumerate(zip(bxs, precs))]
+        vrng.install(vrng.SeededRandom(params["seed"]))
+        pool = [VectorAndNumbers.gen_vector(P) for _ in range(12)]
+        prob = r.choice([1.0, 1.0, 0.5])
+        eta = r.choice([1, 15, 20, 100])
+        wit = lambda: {"operator": op, "bounds": bxs, "precision": precs, "p1": p1, "p2": p2}
+        p1 = p2 = None
+        try:
+            for _ in range(30):
+                p1, p2 = r.choice(pool), r.choice(pool)
+                if r.random() < 0.4:
+                    # the partner is an in-box design that lies as far inside a bound as the generated design lies outside it
+                    # (what clipping and earlier variation leave next to a bound)
+                    p2 = list(p2)
+                    for i_, (x_, (lb, ub)) in enumerate(zip(p1, bxs)):
+                        if x_ < lb and lb + (lb - x_) <= ub:
+                            p2[i_] = lb + (lb - x_)
+                            ctx.count("partners_mirrored_at_a_bound")
+                        elif x_ > ub and ub - (x_ - ub) >= lb:
+                            p2[i_] = ub - (x_ - ub)
+                            ctx.count("partners_mirrored_at_a_bound")
+                if op == "sbx":
+                    kids = list(operators.SimulatedBinaryCrossover(P, prob, eta).cross(list(p1), list(p2)))
+                elif op == "pm":
+                    kids = [operators.PmMutator(P, prob, eta).mutate(list(p1), list(p2))]
+                elif op == "uniform":
+                    kids = [operators.UniformMutator(P, prob, 1.0).mutate(list(p1))]
+                else:
+                    kids = [operators.NonUniformMutation(P, prob, 10, 1.0).mutate(list(p1), r.randint(0, 10))]
+                ctx.count("variations_of_library_generated_parents")
+                for ch in kids:
+                    if len(ch) != n:
+                        ctx.violation("%s/dimension" % op, "child is not a vector of the parents' dimension", wit())
+                        return
+                    for x, (lb, ub), pr in zip(ch, bxs, precs):
+                        xf = float(x)
+                        t = tol(lb, ub, pr)
+                        if not (lb - t <= xf <= ub + t):
+                            ctx.violation("%s/generated_parents/out_of_box" % op, "child coordinate %r outside [%r, %r] by more than half the "
+                                          "declared precision" % (xf, lb, ub), wit())
+                            return
+        except Exception as e:
+            ctx.violation("%s/generated_parents/exception/%s" % (op, type(e).__name__), "%s raised %r for parents drawn by the library's own "
+                          "generator (declared precision)" % (op, e), wit())
+            return
+        ctx.nontrivial(("gp", op, params["seed"]))
+        ctx.count("cases")
     elif name == "generator":
         g = params["gen"]
         n = r.randint(3, 6) if g == "bb" else r.randint(1, 6)
